@@ -11,9 +11,11 @@ import (
 // Scenario is a closed multi-threaded driver plus its oracle.
 type Scenario struct {
 	Name  string
-	Files []string                       // substrings of instrumented files whose yields are on
-	Body  func(s *Sched)                 // builds fresh objects and starts threads
-	Check func(x *Exec) (sig, what string) // "" when the execution satisfies the property
+	Files []string // substrings of instrumented files whose yields are on
+	// YieldsOnly: only those yields (plus environment choices and blocking) are scheduling points; see sched.YieldsOnly
+	YieldsOnly bool
+	Body       func(s *Sched)                   // builds fresh objects and starts threads
+	Check      func(x *Exec) (sig, what string) // "" when the execution satisfies the property
 }
 
 // Stats summarises an exploration.
@@ -172,6 +174,7 @@ func (e *Explorer) dfs(prefix []int) {
 // level-0 and level-1 executions are counted by shard 0 only, level-2 subtrees are dealt round-robin.
 func (e *Explorer) Explore() *Stats {
 	EnableFiles(e.Sc.Files...)
+	YieldsOnly = e.Sc.YieldsOnly
 	if e.NShards < 1 {
 		e.NShards = 1
 	}
